@@ -2,7 +2,7 @@
 From V Require Import lib.Base lib.Regex lib.RegexDecide lib.Utf8 gen.GenRegex gen.GenTables gen.GenStyle
   spec.CssSyntax model.CssRule spec.CssRuleSpec.
 From V Require Import proofs.RegexFacts proofs.RegexDecideFacts proofs.RegexSpecs proofs.Utf8Facts.
-From Coq Require Import ZifyBool ZifyN.
+From Coq Require Import ZifyBool ZifyN ZifyNat.
 Local Open Scope N_scope.
 
 (* ------------------------------------------------------------------ side conditions on regenerated data *)
@@ -28,3 +28,227 @@ Proof.
   destruct (negb (has_balanced_brackets (strip_strings sel))); [discriminate|].
   intros H. inversion H. reflexivity.
 Qed.
+
+(* ------------------------------------------------------------------ rejections *)
+Theorem css_rule_rejects_lt sel st : In 60 sel -> css_rule sel st = None.
+Proof.
+  intros H. unfold css_rule.
+  replace (existsb (N.eqb 60) sel) with true; [reflexivity|].
+  symmetry. apply existsb_exists. exists 60. split; [exact H | reflexivity].
+Qed.
+
+Lemma disallowed_spec c : c <= 1114111 ->
+  in_ranges c disallowed_selector_cls = negb (is_allowed_selector_char c).
+Proof.
+  intros Hc. unfold in_ranges, in_range, disallowed_selector_cls, is_allowed_selector_char. simpl.
+  lia.
+Qed.
+
+(* a rune outside the documented class anywhere in w makes the code's pattern match *)
+Lemma invalid_rune_found w c : wf_runes w -> In c w -> is_allowed_selector_char c = false ->
+  go_match G_invalidCSSSelectorRune w = true.
+Proof.
+  intros Hw Hc Ha. apply (go_incl _ _ bridge_invalid_rune_ok).
+  apply (go_match_M _ _ Hw). apply in_split in Hc as (a & b & ->).
+  exists a, [c], b. split; [reflexivity|]. constructor.
+  rewrite disallowed_spec, Ha; [reflexivity|].
+  unfold wf_runes in Hw. rewrite Forall_forall in Hw. apply Hw. apply in_or_app. right. left. reflexivity.
+Qed.
+
+Theorem css_rule_rejects_invalid_rune sel st c :
+  In c (decode_runes (strip_strings sel)) -> is_allowed_selector_char c = false ->
+  css_rule sel st = None.
+Proof.
+  intros Hc Ha. unfold css_rule. destruct (existsb (N.eqb 60) sel); [reflexivity|].
+  unfold has_invalid_selector_rune.
+  rewrite (invalid_rune_found _ c (decode_runes_bounded _) Hc Ha). reflexivity.
+Qed.
+
+Theorem css_rule_rejects_unbalanced sel st :
+  has_balanced_brackets (strip_strings sel) = false -> css_rule sel st = None.
+Proof.
+  intros H. unfold css_rule. destruct (existsb (N.eqb 60) sel); [reflexivity|].
+  destruct (has_invalid_selector_rune (strip_strings sel)); [reflexivity|]. rewrite H. reflexivity.
+Qed.
+
+Lemma allowed_ascii c : is_allowed_selector_char c = true -> c < 128.
+Proof. unfold is_allowed_selector_char. lia. Qed.
+
+(* what an accepted selector looks like once its strings are removed: every BYTE is one of the
+   documented selector characters (so none of { } ; @ \ / quotes < newlines controls non-ASCII), and
+   the () [] brackets are balanced; and the selector itself has no '<' *)
+Theorem css_rule_accepts sel st o : css_rule sel st = Some o ->
+  ~ In 60 sel /\
+  forallb is_allowed_selector_char (strip_strings sel) = true /\
+  has_balanced_brackets (strip_strings sel) = true.
+Proof.
+  unfold css_rule. destruct (existsb (N.eqb 60) sel) eqn:E1; [discriminate|].
+  destruct (has_invalid_selector_rune (strip_strings sel)) eqn:E2; [discriminate|].
+  destruct (has_balanced_brackets (strip_strings sel)) eqn:E3; [|discriminate]. intros _.
+  split; [|split; [|reflexivity]].
+  - intros Hin. assert (existsb (N.eqb 60) sel = true) as C; [|congruence].
+    apply existsb_exists. exists 60. split; [exact Hin | reflexivity].
+  - assert (Hall : Forall (fun c => is_allowed_selector_char c = true) (decode_runes (strip_strings sel))).
+    { apply Forall_forall. intros c Hc. destruct (is_allowed_selector_char c) eqn:Ea; [reflexivity|].
+      unfold has_invalid_selector_rune in E2.
+      rewrite (invalid_rune_found _ c (decode_runes_bounded _) Hc Ea) in E2. discriminate. }
+    assert (Hd : decode_runes (strip_strings sel) = strip_strings sel).
+    { apply decode_all_ascii. eapply Forall_impl; [|exact Hall]. intros c Hc. apply allowed_ascii. exact Hc. }
+    rewrite Hd in Hall. apply forallb_forall. rewrite Forall_forall in Hall. exact Hall.
+Qed.
+
+(* ------------------------------------------------------------------ hasBalancedBrackets *)
+Lemma pair_eqb_eq a b : pair_eqb a b = true <-> a = b.
+Proof.
+  destruct a as [a1 a2], b as [b1 b2]. unfold pair_eqb. simpl.
+  rewrite andb_true_iff, !N.eqb_eq. split; [intros [-> ->]; reflexivity | intros E; inversion E; auto].
+Qed.
+
+Lemma brackets_eq : T_matchingBrackets = documented_brackets.
+Proof. apply (list_eqb_eq pair_eqb pair_eqb_eq). exact brackets_ok_ok. Qed.
+
+Lemma balanced_from_step st c r :
+  balanced_from st (c :: r) =
+  if c =? 41 then match st with v :: st' => if v =? 40 then balanced_from st' r else false | [] => false end
+  else if c =? 93 then match st with v :: st' => if v =? 91 then balanced_from st' r else false | [] => false end
+  else if (c =? 40) || (c =? 91) then balanced_from (c :: st) r
+  else balanced_from st r.
+Proof.
+  cbn [balanced_from]. rewrite brackets_eq. unfold documented_brackets.
+  cbn [bracket_opening is_opening_bracket existsb snd].
+  rewrite (N.eqb_sym 41 c), (N.eqb_sym 93 c), (N.eqb_sym 40 c), (N.eqb_sym 91 c), orb_false_r.
+  destruct (c =? 41); [reflexivity|]. destruct (c =? 93); reflexivity.
+Qed.
+
+Lemma balanced_app a b : balanced a -> balanced b -> balanced (a ++ b).
+Proof.
+  intros Ha Hb. induction Ha as [|c s H1 H2 H3 H4 Hs IH|a1 b1 Ha1 IH1 Hb1 IH2|a1 b1 Ha1 IH1 Hb1 IH2].
+  - exact Hb.
+  - cbn [app]. apply bal_char; assumption.
+  - cbn [app]. rewrite <- app_assoc. cbn [app]. apply bal_paren; assumption.
+  - cbn [app]. rewrite <- app_assoc. cbn [app]. apply bal_brack; assumption.
+Qed.
+
+Definition closer (o : N) : N := if o =? 40 then 41 else 93.
+Fixpoint unwind (st : list N) (s : bytes) : Prop :=
+  match st with
+  | [] => balanced s
+  | o :: st' => exists a r, s = a ++ closer o :: r /\ balanced a /\ unwind st' r
+  end.
+
+Lemma unwind_prepend x st s : balanced x -> unwind st s -> unwind st (x ++ s).
+Proof.
+  intros Hx. destruct st as [|o st]; cbn [unwind].
+  - apply balanced_app. exact Hx.
+  - intros (a & r & -> & Ha & Hu). exists (x ++ a), r. rewrite <- app_assoc.
+    split; [reflexivity|]. split; [apply balanced_app; assumption | exact Hu].
+Qed.
+
+Lemma balanced_from_unwind s : forall st,
+  Forall (fun o => o = 40 \/ o = 91) st -> balanced_from st s = true -> unwind st s.
+Proof.
+  induction s as [|c r IH]; intros st Hst H.
+  - destruct st; [constructor | discriminate].
+  - rewrite balanced_from_step in H.
+    destruct (c =? 41) eqn:E1.
+    { apply N.eqb_eq in E1. subst c. destruct st as [|v st']; [discriminate|].
+      destruct (v =? 40) eqn:Ev; [|discriminate]. apply N.eqb_eq in Ev. subst v.
+      inversion Hst; subst. cbn [unwind]. exists [], r. split; [reflexivity|].
+      split; [constructor | apply IH; assumption]. }
+    destruct (c =? 93) eqn:E2.
+    { apply N.eqb_eq in E2. subst c. destruct st as [|v st']; [discriminate|].
+      destruct (v =? 91) eqn:Ev; [|discriminate]. apply N.eqb_eq in Ev. subst v.
+      inversion Hst; subst. cbn [unwind]. exists [], r. split; [reflexivity|].
+      split; [constructor | apply IH; assumption]. }
+    destruct ((c =? 40) || (c =? 91)) eqn:E3.
+    { assert (Hc : c = 40 \/ c = 91) by lia.
+      specialize (IH (c :: st) (Forall_cons _ Hc Hst) H). cbn [unwind] in IH.
+      destruct IH as (a & r' & -> & Ha & Hu).
+      replace (c :: a ++ closer c :: r') with ((c :: a ++ [closer c]) ++ r')
+        by (cbn [app]; rewrite <- app_assoc; reflexivity).
+      apply unwind_prepend; [|exact Hu].
+      destruct Hc as [-> | ->]; unfold closer; cbn.
+      - rewrite <- (app_nil_r (a ++ [41])). rewrite <- app_assoc. apply bal_paren; [exact Ha | constructor].
+      - rewrite <- (app_nil_r (a ++ [93])). rewrite <- app_assoc. apply bal_brack; [exact Ha | constructor]. }
+    change (c :: r) with ([c] ++ r). apply unwind_prepend; [|apply IH; assumption].
+    apply bal_char; try lia. constructor.
+Qed.
+
+Lemma balanced_from_skip a : balanced a -> forall st rest,
+  balanced_from st (a ++ rest) = balanced_from st rest.
+Proof.
+  induction 1 as [|c s H1 H2 H3 H4 Hs IH|a1 b1 Ha1 IH1 Hb1 IH2|a1 b1 Ha1 IH1 Hb1 IH2]; intros st rest.
+  - reflexivity.
+  - cbn [app]. rewrite balanced_from_step.
+    replace (c =? 41) with false by lia. replace (c =? 93) with false by lia.
+    replace ((c =? 40) || (c =? 91)) with false by lia. apply IH.
+  - cbn [app]. rewrite balanced_from_step. cbn. rewrite <- app_assoc. rewrite IH1.
+    cbn [app]. rewrite balanced_from_step. cbn. apply IH2.
+  - cbn [app]. rewrite balanced_from_step. cbn. rewrite <- app_assoc. rewrite IH1.
+    cbn [app]. rewrite balanced_from_step. cbn. apply IH2.
+Qed.
+
+Theorem has_balanced_brackets_spec s : has_balanced_brackets s = true <-> balanced s.
+Proof.
+  unfold has_balanced_brackets. split.
+  - intros H. apply (balanced_from_unwind s [] (Forall_nil _) H).
+  - intros H. rewrite <- (app_nil_r s). rewrite (balanced_from_skip s H). reflexivity.
+Qed.
+
+(* ------------------------------------------------------------------ the string scanner *)
+Lemma scan_string_sound_n q n : q <> 92 -> forall r rest, (length r <= n)%nat ->
+  scan_string q r = Some rest -> exists body, r = body ++ q :: rest /\ string_body q body = true.
+Proof.
+  intros Hq. induction n as [|n IH]; intros r rest Hl H.
+  { destruct r; [discriminate | simpl in Hl; lia]. }
+  destruct r as [|c r]; [discriminate|]. cbn [scan_string] in H.
+  destruct (c =? q) eqn:Eq.
+  { inversion H; subst. apply N.eqb_eq in Eq. subst c. exists []. split; reflexivity. }
+  destruct ((c =? 13) || (c =? 10) || (c =? 12)) eqn:En; [discriminate|].
+  destruct (c =? 92) eqn:E92.
+  - destruct r as [|d r']; [discriminate|].
+    destruct (IH r' rest) as (body & -> & Hb); [simpl in Hl; lia | exact H |].
+    exists (c :: d :: body). split; [reflexivity|]. cbn [string_body]. rewrite E92. exact Hb.
+  - destruct (IH r rest) as (body & -> & Hb); [simpl in Hl; lia | exact H |].
+    exists (c :: body). split; [reflexivity|]. cbn [string_body]. rewrite E92.
+    replace ((c =? q) || (c =? 13) || (c =? 10) || (c =? 12)) with false by lia. exact Hb.
+Qed.
+
+Theorem scan_string_sound q r rest : q <> 92 ->
+  scan_string q r = Some rest -> exists body, r = body ++ q :: rest /\ string_body q body = true.
+Proof. intros Hq. apply (scan_string_sound_n q (length r) Hq). lia. Qed.
+
+Lemma scan_string_complete_n q n : q <> 92 -> forall body rest, (length body <= n)%nat ->
+  string_body q body = true -> scan_string q (body ++ q :: rest) = Some rest.
+Proof.
+  intros Hq. induction n as [|n IH]; intros body rest Hl H.
+  { destruct body; [|simpl in Hl; lia]. cbn. rewrite N.eqb_refl. reflexivity. }
+  destruct body as [|c r]; [cbn; rewrite N.eqb_refl; reflexivity|].
+  cbn [string_body] in H. cbn [app scan_string].
+  destruct (c =? 92) eqn:E92.
+  - destruct r as [|d r']; [discriminate|].
+    replace (c =? q) with false by lia. replace ((c =? 13) || (c =? 10) || (c =? 12)) with false by lia.
+    cbn [app]. apply IH; [simpl in Hl; lia | exact H].
+  - apply andb_true_iff in H as [H1 H2].
+    replace (c =? q) with false by lia. replace ((c =? 13) || (c =? 10) || (c =? 12)) with false by lia.
+    apply IH; [simpl in Hl; lia | exact H2].
+Qed.
+
+Theorem scan_string_complete q body rest : q <> 92 ->
+  string_body q body = true -> scan_string q (body ++ q :: rest) = Some rest.
+Proof. intros Hq. apply (scan_string_complete_n q (length body) Hq). lia. Qed.
+
+(* non-vacuity *)
+Example css_rule_accepts_example :
+  css_rule (B "a[x='}']:not(.b) > c") (B "color:red;") = Some (B "a[x='}']:not(.b) > c{color:red;}").
+Proof. vm_compute. reflexivity. Qed.
+Example css_rule_spec_example :
+  css_rule_spec (B "a[x='}']:not(.b) > c") (B "color:red;") (Some (B "a[x='}']:not(.b) > c{color:red;}")) = true.
+Proof. vm_compute. reflexivity. Qed.
+Example css_rule_spec_rejects_injection :
+  css_rule_spec (B "a{}b") (B "color:red;") (Some (B "a{}b{color:red;}")) = false.
+Proof. vm_compute. reflexivity. Qed.
+Example css_rule_rejects_examples :
+  css_rule (B "a{") [] = None /\ css_rule (B "a(") [] = None /\ css_rule [97; 34; 98] [] = None /\
+  css_rule (B "a<") [] = None /\ css_rule [97; 10] [] = None /\ css_rule (B "a\b") [] = None.
+Proof. vm_compute. repeat split; reflexivity. Qed.
